@@ -147,6 +147,10 @@ Definition handle_msg (s : sess) (m : wmsg) : sess * outcome :=
   | WRouteRefresh => (s, ODone)
   end.
 
+(* Session::send_open (pinned): the OPEN this side sends always carries the four-octet capability and ADD-PATH send+receive for each
+   configured ADD-PATH family - the "local" side of c12_live *)
+Definition sent_open_caps (s : sess) : bool * list (fam * N) := (true, map (fun f => (f, 3)) (s_local_ap s)).
+
 (* tick: a message whose processing fails puts the session in Connect and ends the task's loop *)
 Definition tick_msg (s : sess) (m : wmsg) : sess * outcome :=
   match handle_msg s m with
